@@ -148,6 +148,8 @@ pub enum KsfArg {
     Argon2 { m: u32, t: u32, p: u32 },
     /// alg: 0 = Argon2d, 1 = Argon2i, 2 = Argon2id; v10: version 0x10 instead of 0x13
     Argon2Alg { alg: u8, v10: bool, m: u32, t: u32, p: u32 },
+    /// Argon2id m=8 t=1 p=1 whose Params carry an explicit output length
+    Argon2Out { out: u32 },
 }
 
 #[derive(Clone, Copy, Debug, PartialEq, Eq, PartialOrd, Ord, Serialize, Deserialize)]
@@ -388,6 +390,11 @@ impl KsfMake for argon2::Argon2<'static> {
                 },
                 if *v10 { argon2::Version::V0x10 } else { argon2::Version::V0x13 },
                 argon2::Params::new(*m, *t, *p, None).expect("harness: argon2 params"),
+            )),
+            KsfArg::Argon2Out { out } => Some(argon2::Argon2::new(
+                argon2::Algorithm::Argon2id,
+                argon2::Version::V0x13,
+                argon2::Params::new(8, 1, 1, Some(*out as usize)).expect("harness: argon2 params"),
             )),
             other => panic!("harness: KsfArg {other:?} given to an Argon2 suite"),
         }
